@@ -50,11 +50,13 @@ fn strategy(t: Tier) -> BoxedStrategy<RuleCase> {
     let cfgs = prop_oneof![
         30 => gen::cfg(Kind::Default, t.pick(800, 2500)).prop_map(|(c, _)| c),
         1 => one_rate_only(),
+        // few shards of 64 KiB .. 4 MiB (size-dependent rate decisions)
+        1 => gen::long_shard_cfg(),
     ];
     (gen::engine(), cfgs, gen::data_spec(), gen::recv_spec())
         .prop_map(|(eng, cfg, data, recv)| {
             // the slow engines do not get the 65536-position configurations
-            let eng = if cfg.k + cfg.r > 30000 && (eng == Eng::Naive || eng == Eng::Neon) { Eng::NoSimd } else { eng };
+            let eng = if (cfg.k + cfg.r > 30000 || cfg.b > (200 << 10)) && (eng == Eng::Naive || eng == Eng::Neon) { Eng::NoSimd } else { eng };
             RuleCase { eng, cfg, data, recv }
         })
         .boxed()
